@@ -9,13 +9,13 @@ specified nodes.
 namespace Nomt.Walker
 open Nomt Nomt.TriePos
 
-variable {Node VH : Type} [DecidableEq Node] [DecidableEq VH] (H : Hasher Node VH)
+variable {Node VH : Type} [DecidableEq Node] [DecidableEq VH] (H : Hasher Node VH) (D : Path → Prop)
 
 theorem invB_weaken_todo {S S' : List (Key × VH)} {store0 : Store Node} {cfg : TWCfg Node}
     {done todo : List (Step VH)} {s : Step VH} {a : TW Node} (hnone : s.2.isSome = false)
-    (h : InvB H S S' store0 cfg done (s :: todo) a) : InvB H S S' store0 cfg (done ++ [s]) todo a := by
+    (h : InvB H D S S' store0 cfg done (s :: todo) a) : InvB H D S S' store0 cfg (done ++ [s]) todo a := by
   refine ⟨h.len, h.good, h.below, h.left, h.right, ?_, fun s' hs' => h.todoP s' (List.mem_cons_of_mem _ hs'),
-    h.anc, h.logok, h.cprok, h.cprnil⟩
+    h.anc, h.logok, h.cprok, h.cprnil, h.onpath⟩
   intro s' hs' hsome
   rcases List.mem_append.mp hs' with h' | h'
   · exact h.doneP s' h' hsome
@@ -24,35 +24,37 @@ theorem invB_weaken_todo {S S' : List (Key × VH)} {store0 : Store Node} {cfg : 
 /-- one step keeps the invariant -/
 theorem invB_step (hs : H.Sound) {S S' : List (Key × VH)} (hS : KeysOK S) (hS' : KeysOK S')
     {done todo : List (Step VH)} {s : Step VH} (hso : ScriptOK S S' (done ++ s :: todo))
-    {store0 : Store Node} (hrep : Rep0 H S store0) (cfg : TWCfg Node) (a : TW Node)
-    (hinv : InvB H S S' store0 cfg done (s :: todo) a) :
-    InvB H S S' store0 cfg (done ++ [s]) todo (a.step H cfg s) := by
-  obtain ⟨hc1, hc2⟩ := invB_compact H hs hS' hso hrep cfg a hinv
+    (hDp : PathsIn D (done ++ s :: todo))
+    {store0 : Store Node} (hrep : Rep0 H D S store0) (cfg : TWCfg Node) (a : TW Node)
+    (hinv : InvB H D S S' store0 cfg done (s :: todo) a) :
+    InvB H D S S' store0 cfg (done ++ [s]) todo (a.step H cfg s) := by
+  obtain ⟨hc1, hc2⟩ := invB_compact H D hs hS' hso hrep cfg a hinv
   unfold TW.step
   cases hop : s.2 with
   | none =>
     simp only
-    exact invB_weaken_todo H (by rw [hop]; rfl) hc1
+    exact invB_weaken_todo H D (by rw [hop]; rfl) hc1
   | some ops =>
     simp only
     have hops := hso.repl s (by simp) ops hop
     unfold TW.advanceAndReplace
     rw [hops]
-    exact invB_replace H hs hS hS' hso cfg _ (preRep_of_invB H hS hso hrep cfg _ hc1 hc2)
+    exact invB_replace H D hs hS hS' hso cfg _ (preRep_of_invB H D hS hso hDp hrep cfg _ hc1 hc2)
 
 theorem tw_run_invB (hs : H.Sound) {S S' : List (Key × VH)} (hS : KeysOK S) (hS' : KeysOK S')
-    {store0 : Store Node} (hrep : Rep0 H S store0) (cfg : TWCfg Node) :
-    ∀ (todo done : List (Step VH)) (a : TW Node), ScriptOK S S' (done ++ todo) →
-      InvB H S S' store0 cfg done todo a →
-      InvB H S S' store0 cfg (done ++ todo) [] (a.run H cfg todo) := by
+    {store0 : Store Node} (hrep : Rep0 H D S store0) (cfg : TWCfg Node) :
+    ∀ (todo done : List (Step VH)) (a : TW Node), ScriptOK S S' (done ++ todo) → PathsIn D (done ++ todo) →
+      InvB H D S S' store0 cfg done todo a →
+      InvB H D S S' store0 cfg (done ++ todo) [] (a.run H cfg todo) := by
   intro todo
   induction todo with
-  | nil => intro done a _ h; simpa [TW.run] using h
+  | nil => intro done a _ _ h; simpa [TW.run] using h
   | cons s todo ih =>
-    intro done a hso h
-    have := invB_step H hs hS hS' hso hrep cfg a h
+    intro done a hso hDp h
+    have := invB_step H D hs hS hS' hso hDp hrep cfg a h
     have hso' : ScriptOK S S' ((done ++ [s]) ++ todo) := by simpa using hso
-    have := ih (done ++ [s]) _ hso' this
+    have hDp' : PathsIn D ((done ++ [s]) ++ todo) := by simpa using hDp
+    have := ih (done ++ [s]) _ hso' hDp' this
     simpa [TW.run] using this
 
 /-- the idle walker: nothing happened yet -/
@@ -70,27 +72,28 @@ theorem tw_compactUp_idle (cfg : TWCfg Node) (a : TW Node) (t : Option Path) (h 
 /-- a run from the idle walker: it stays idle while the steps only `advance`, and the first replaced terminal
 establishes the invariant -/
 theorem tw_run_idle (hs : H.Sound) {S S' : List (Key × VH)} (hS : KeysOK S) (hS' : KeysOK S')
-    {store0 : Store Node} (hrep : Rep0 H S store0) (cfg : TWCfg Node) :
-    ∀ (todo done : List (Step VH)) (a : TW Node), ScriptOK S S' (done ++ todo) →
+    {store0 : Store Node} (hrep : Rep0 H D S store0) (cfg : TWCfg Node) :
+    ∀ (todo done : List (Step VH)) (a : TW Node), ScriptOK S S' (done ++ todo) → PathsIn D (done ++ todo) →
       Idle store0 cfg a → (∀ s ∈ done, s.2.isSome = false) →
       (Idle store0 cfg (a.run H cfg todo) ∧ ∀ s ∈ done ++ todo, s.2.isSome = false) ∨
-      InvB H S S' store0 cfg (done ++ todo) [] (a.run H cfg todo) := by
+      InvB H D S S' store0 cfg (done ++ todo) [] (a.run H cfg todo) := by
   intro todo
   induction todo with
   | nil =>
-    intro done a _ hidle hdone
+    intro done a _ _ hidle hdone
     left
     exact ⟨by simpa [TW.run] using hidle, by simpa using hdone⟩
   | cons s todo ih =>
-    intro done a hso hidle hdone
+    intro done a hso hDp hidle hdone
     have hso' : ScriptOK S S' ((done ++ [s]) ++ todo) := by simpa using hso
+    have hDp' : PathsIn D ((done ++ [s]) ++ todo) := by simpa using hDp
     cases hop : s.2 with
     | none =>
       have hstep : a.step H cfg s = a := by
         unfold TW.step; rw [hop]; simp only
         unfold TW.advance
         exact tw_compactUp_idle H cfg a _ hidle.pos
-      have := ih (done ++ [s]) a hso' hidle (by
+      have := ih (done ++ [s]) a hso' hDp' hidle (by
         intro s' hs'
         rcases List.mem_append.mp hs' with h | h
         · exact hdone s' h
@@ -104,21 +107,21 @@ theorem tw_run_idle (hs : H.Sound) {S S' : List (Key × VH)} (hS : KeysOK S) (hS
         unfold TW.step; rw [hop]; simp only
         unfold TW.advanceAndReplace
         rw [tw_compactUp_idle H cfg a _ hidle.pos, hops]
-      have hpre := preRep_init H hS hso hrep cfg a hidle.store hidle.log hidle.cpr hdone
-      have hinv := invB_replace H hs hS hS' hso cfg a hpre
+      have hpre := preRep_init H D hS hso hDp hrep cfg a hidle.store hidle.log hidle.cpr hdone
+      have hinv := invB_replace H D hs hS hS' hso cfg a hpre
       rw [← hstep] at hinv
-      have := tw_run_invB H hs hS hS' hrep cfg todo (done ++ [s]) _ hso' hinv
+      have := tw_run_invB H D hs hS hS' hrep cfg todo (done ++ [s]) _ hso' hDp' hinv
       simpa [TW.run] using this
 
 /-! ## `conclude` -/
 
 theorem tw_conclude_spec (hs : H.Sound) {S S' : List (Key × VH)} (hS' : KeysOK S')
-    {all : List (Step VH)} (hso : ScriptOK S S' all) {store0 : Store Node} (hrep : Rep0 H S store0)
-    (cfg : TWCfg Node) (a : TW Node) (hinv : InvB H S S' store0 cfg all [] a) :
+    {all : List (Step VH)} (hso : ScriptOK S S' all) {store0 : Store Node} (hrep : Rep0 H D S store0)
+    (cfg : TWCfg Node) (a : TW Node) (hinv : InvB H D S S' store0 cfg all [] a) :
     ∀ a', a' = a.conclude H cfg →
-    a'.pos = a.pos.take cfg.top ∧ SubOK H S' a'.store a'.pos ∧
+    a'.pos = a.pos.take cfg.top ∧ SubOK H D S' a'.store a'.pos ∧
     (cfg.hasParent = false → Good H S' a'.store a'.pos ∧ a'.cpr = []) ∧
-    (∀ e ∈ a'.log, LogOK H S' e) ∧ (∀ e ∈ a'.cpr, e.2 = specNode H S' e.1 ∧ e.1.length = cfg.top) ∧
+    (∀ e ∈ a'.log, LogOK H D S' e) ∧ (∀ e ∈ a'.cpr, e.2 = specNode H S' e.1 ∧ e.1.length = cfg.top) ∧
     (∀ q, ¬ (a.pos.take cfg.top) <+: q → a'.store q = a.store q) := by
   intro a' ha'
   unfold TW.conclude TW.compactUp at ha'
@@ -142,7 +145,7 @@ theorem tw_conclude_spec (hs : H.Sound) {S S' : List (Key × VH)} (hS' : KeysOK 
     have hsplit : a.pos = a.pos.take cfg.top ++ a.pos.drop cfg.top := (List.take_append_drop _ a.pos).symm
     have hpl : (a.pos.take cfg.top).length = cfg.top := by rw [List.length_take]; omega
     have h256 : a.pos.length ≤ 256 := hinv.len
-    have hspec := tw_compactLoop_spec H hs hS' cfg (a.pos.length - cfg.top) a (a.pos.take cfg.top)
+    have hspec := tw_compactLoop_spec H D hs hS' cfg (a.pos.length - cfg.top) a (a.pos.take cfg.top)
       (a.pos.drop cfg.top) hsplit (by rw [List.length_drop]) (by rw [hpl]; omega) (by rw [← hsplit]; exact h256)
       (by rw [← hsplit]; exact hinv.good (Or.inl htop)) (by rw [← hsplit]; exact hinv.below)
       (by
@@ -160,7 +163,7 @@ theorem tw_conclude_spec (hs : H.Sound) {S S' : List (Key × VH)} (hS' : KeysOK 
           have hxlen : (a.pos.take cfg.top ++ s1 ++ [true]).length ≤ 256 := by
             have := hxc.length_le
             simp at this ⊢; omega
-          apply clean_good H hso hrep a.store _ hxlen
+          apply clean_good H D hso hrep a.store _ hxlen
           · intro s' hs' hsome
             rcases hinv.doneP s' hs' hsome with h | h
             · exact Or.inl (leftOf_rightSib_of_under hxc h)
@@ -174,6 +177,8 @@ theorem tw_conclude_spec (hs : H.Sound) {S S' : List (Key × VH)} (hS' : KeysOK 
               have h2 := congrArg List.length e
               simp only [List.length_append, List.length_singleton] at h1 h2
               omega
+          · have := (hinv.onpath _ hxc (by simp)).2
+            rwa [sibPath_snoc] at this
           · intro q hq
             exact hinv.right q (leftOf_of_branch hxc hq))
     rw [← ha'] at hspec
@@ -202,13 +207,14 @@ replaced by the keys of `S'` below it, over a store that represents `S`, ends af
 that represents `S'` — the root and every meaningful slot — and every page left on the way was logged with its meaningful
 slots right. -/
 theorem tw_walk_root (hs : H.Sound) {S S' : List (Key × VH)} (hS : KeysOK S) (hS' : KeysOK S')
-    {steps : List (Step VH)} (hso : ScriptOK S S' steps) {store0 : Store Node} (hrep : Rep0 H S store0)
+    {steps : List (Step VH)} (hso : ScriptOK S S' steps) (hDp : PathsIn D steps)
+    {store0 : Store Node} (hrep : Rep0 H D S store0)
     (cfg : TWCfg Node) (htop : cfg.top = 0) (hpar : cfg.hasParent = false) :
     let a' := ((⟨[], store0, [], []⟩ : TW Node).run H cfg steps).conclude H cfg
-    a'.pos = [] ∧ Rep0 H S' a'.store ∧ (∀ e ∈ a'.log, LogOK H S' e) ∧ a'.cpr = [] := by
+    a'.pos = [] ∧ Rep0 H D S' a'.store ∧ (∀ e ∈ a'.log, LogOK H D S' e) ∧ a'.cpr = [] := by
   intro a'
   have hidle : Idle store0 cfg (⟨[], store0, [], []⟩ : TW Node) := ⟨by simp, rfl, rfl, rfl⟩
-  rcases tw_run_idle H hs hS hS' hrep cfg steps [] _ (by simpa using hso) hidle (by simp) with ⟨hi, hall⟩ | hinv
+  rcases tw_run_idle H D hs hS hS' hrep cfg steps [] _ (by simpa using hso) (by simpa using hDp) hidle (by simp) with ⟨hi, hall⟩ | hinv
   · -- nothing was replaced: nothing changes, and `S' = S`
     have hconc : a' = (⟨[], store0, [], []⟩ : TW Node).run H cfg steps := by
       show TW.conclude H cfg _ = _
@@ -223,20 +229,20 @@ theorem tw_walk_root (hs : H.Sound) {S S' : List (Key × VH)} (hS : KeysOK S) (h
     refine ⟨?_, ?_, ?_, hi.cpr⟩
     · have := hi.pos; rw [htop] at this
       exact List.eq_nil_of_length_eq_zero (by omega)
-    · intro q hq hm
+    · intro q hq hD hm
       rw [hi.store]
       have hspec : specNode H S' q = specNode H S q := by unfold specNode; rw [hsub q hq]
       rw [hspec]
-      apply hrep q hq
+      apply hrep q hq hD
       rcases hm with h | h
       · exact Or.inl h
       · right; rw [← hsub _ (by rw [List.length_dropLast]; omega)]; exact h
     · intro e he; rw [hi.log] at he; cases he
   · simp only [List.nil_append] at hinv
-    obtain ⟨c1, c2, c3, c4, c5, _⟩ := tw_conclude_spec H hs hS' hso hrep cfg _ hinv a' rfl
+    obtain ⟨c1, c2, c3, c4, c5, _⟩ := tw_conclude_spec H D hs hS' hso hrep cfg _ hinv a' rfl
     have hp : a'.pos = [] := by rw [c1, htop]; simp
     refine ⟨hp, ?_, c4, (c3 hpar).2⟩
-    intro q hq hm
+    intro q hq hD hm
     by_cases hq0 : q = []
     · subst hq0
       have := (c3 hpar).1
@@ -244,6 +250,27 @@ theorem tw_walk_root (hs : H.Sound) {S S' : List (Key × VH)} (hS : KeysOK S) (h
       exact this
     · have := c2
       rw [hp] at this
-      exact this q (List.nil_prefix) hq0 hq hm
+      exact this q (List.nil_prefix) hq0 hq hD hm
+
+/-- **The sub-trie walk** (tree walker with a parent page): every child-page root delivered is the specified node of `S'`
+at a position of the bottom layer of the parent page, and every page left was logged with its meaningful slots right. -/
+theorem tw_walk_children (hs : H.Sound) {S S' : List (Key × VH)} (hS : KeysOK S) (hS' : KeysOK S')
+    {steps : List (Step VH)} (hso : ScriptOK S S' steps) (hDp : PathsIn D steps)
+    {store0 : Store Node} (hrep : Rep0 H D S store0) (cfg : TWCfg Node) :
+    let a' := ((⟨[], store0, [], []⟩ : TW Node).run H cfg steps).conclude H cfg
+    (∀ e ∈ a'.cpr, e.2 = specNode H S' e.1 ∧ e.1.length = cfg.top) ∧ (∀ e ∈ a'.log, LogOK H D S' e) := by
+  intro a'
+  have hidle : Idle store0 cfg (⟨[], store0, [], []⟩ : TW Node) := ⟨by simp, rfl, rfl, rfl⟩
+  rcases tw_run_idle H D hs hS hS' hrep cfg steps [] _ (by simpa using hso) (by simpa using hDp) hidle (by simp)
+    with ⟨hi, _⟩ | hinv
+  · have hconc : a' = (⟨[], store0, [], []⟩ : TW Node).run H cfg steps := by
+      show TW.conclude H cfg _ = _
+      unfold TW.conclude
+      exact tw_compactUp_idle H cfg _ _ hi.pos
+    rw [hconc, hi.cpr, hi.log]
+    exact ⟨fun e he => by cases he, fun e he => by cases he⟩
+  · simp only [List.nil_append] at hinv
+    obtain ⟨_, _, _, c4, c5, _⟩ := tw_conclude_spec H D hs hS' hso hrep cfg _ hinv a' rfl
+    exact ⟨c5, c4⟩
 
 end Nomt.Walker
